@@ -119,3 +119,21 @@ package waddrmgr
 //@   ensures db_unchanged: DB_SAME()
 //@   ensures set_iff: HAS(B_SYNC(ns), bytes(birthdayBlockName)) && blen(VAL(B_SYNC(ns), bytes(birthdayBlockName))) == 44 ==> err == nil
 //@   ensures unset: !HAS(B_SYNC(ns), bytes(birthdayBlockName)) ==> err != nil
+
+// ---- C17: the in-memory passphrase check of an already unlocked manager ----
+// Unlock on an unlocked manager accepts a passphrase only if its salted
+// SHA-512 equals the hash remembered by the unlock that opened the manager,
+// and a successful unlock remembers exactly the salted hash of the passphrase
+// it was given (sha512B is uninterpreted: the argument is about which bytes
+// are hashed and compared, not about SHA-512).
+//@ macro SALTED(m, pw) = sha512B(bcat(bytes(m.privPassphraseSalt), pw))
+//@ func (*Manager).Unlock(m, ns, passphrase) (err)
+//@   property C17
+//@   requires m: m != nil
+//@   ensures unlocked_accepts_only_remembered: !old(m.watchingOnly.v != 0) && !old(m.locked.v != 0) && err == nil ==> old(SALTED(m, bytes(passphrase))) == old(bytes(m.hashedPrivPassphrase))
+//@   ensures unlocked_rejects_locks: !old(m.watchingOnly.v != 0) && !old(m.locked.v != 0) && err != nil ==> m.locked.v != 0
+//@   ensures remembers_hash: !old(m.watchingOnly.v != 0) && old(m.locked.v != 0) && err == nil ==> bytes(m.hashedPrivPassphrase) == SALTED(m, old(bytes(passphrase))) && m.locked.v == 0
+//@ func (*Manager).lock(m)
+//@   property C17
+//@   requires m: m != nil
+//@   ensures locked: m.locked.v != 0
